@@ -111,6 +111,15 @@ func ciscoPlan(kind, prop string) RunFunc {
 				f.Input["script2"] = scriptText(p2.Script)
 				return f
 			}
+			// Live leg: the same pair through a complete simulated session
+			// (login, reload guard on IOS, change, save) with a tape-chosen
+			// legal device behaviour, chunking and latency.
+			if len(p.Script) > 0 && tp.Next(6) == 0 {
+				if f := liveConverge(c, cs, tp, p); f != nil {
+					f.Key = kind + "|" + f.Key
+					return f
+				}
+			}
 		}
 		return nil
 	}
@@ -225,3 +234,62 @@ func hasRemarks(cs *CiscoCase) bool {
 
 // nsxConverge is set by the NSX checks when they are compiled in.
 var nsxConverge func(prop string) RunFunc
+
+// liveConverge runs a full approve session and applies the final-state oracle
+// of C01/C02 to the device the session leaves behind.
+func liveConverge(c *Ctx, cs *CiscoCase, tp *tape.Tape, p Plan) *Failure {
+	lo := DefaultLiveOpts(tp)
+	r := c.LiveCisco(cs, lo, tape.Replay(nil))
+	c.Count("live_sessions", 1)
+	in := cs.Input()
+	in["script"] = scriptText(p.Script)
+	in["stderr"] = strings.Split(r.Res.Stderr, "\n")
+	in["opts"] = fmt.Sprintf("%+v", lo)
+	fail := func(key, msg string) *Failure {
+		return &Failure{Key: "live|" + key, Msg: msg, Input: in, Log: tail(r.Log, 60)}
+	}
+	if r.Trouble != "" {
+		c.HarnessError("live session: %s", r.Trouble)
+		return nil
+	}
+	if r.Res.Panic != "" {
+		return fail("tool-panic|"+panicFunc(r.Res.Panic), firstLine(r.Res.Panic))
+	}
+	if r.Res.Exit != 0 {
+		// The statement speaks about executed scripts; a session that fails
+		// (and says so) is the subject of C09, not of this property.
+		c.Count("live_session_failed", 1)
+		c.Count("live_session_failed:"+firstWords(errorLine(r.Res.Stderr+r.RunLog), 5), 1)
+		return nil
+	}
+	for _, t := range r.Transcr {
+		if t.Reject != "" {
+			return fail("command-rejected|"+rejectKind(t.Reject), fmt.Sprintf("device rejected %q: %s, yet approve exits 0", t.Line, t.Reject))
+		}
+	}
+	sc := cisco.ScopeOf(cs.B)
+	if d := cisco.DiffCanon(cisco.Canon(r.Dev.Node.Conf, sc), cisco.Canon(cs.B, sc)); d != "" {
+		return fail("state-differs|"+diffKind(d), "after the approve session: "+d)
+	}
+	if !r.Dev.RunningEqualsStartup() {
+		return fail("not-saved", "approve exits 0 but the running configuration was not saved")
+	}
+	if lo.Front == "do-approve" && (r.Status == nil || r.Status.Approve.Result != "OK") {
+		return fail("status-not-ok", "approve exits 0 but the status file does not say OK")
+	}
+	// The plan of drc FILE1 FILE2 and the commands of the session agree.
+	var live []string
+	for _, t := range r.Transcr {
+		if t.Class == "change" {
+			live = append(live, t.Line)
+		}
+	}
+	var plan []string
+	for _, cmd := range p.Script {
+		plan = append(plan, cmd.Line)
+	}
+	if strings.Join(live, "\n") != strings.Join(plan, "\n") {
+		c.Count("plan_vs_live_diff", 1)
+	}
+	return nil
+}
